@@ -56,6 +56,7 @@ var bfVocab = map[string]bool{
 	"bindJSONBytesInternal": true, "bindJSONReaderInternal": true, "bindXMLBytesInternal": true, "bindXMLReaderInternal": true,
 	"Get": true, "GetAll": true, "Has": true, "Split": true, "TrimSpace": true, "Join": true,
 	"BindTo": true, "bindJSON": true, "bindForm": true, "hasJSONOrFormTag": true,
+	"MultipartTo": true, "FormTo": true, "ParseMultipartForm": true, "ParseForm": true,
 }
 
 var bfCfgFields = map[string]bool{"skipDefaults": true, "sources": true}
@@ -646,6 +647,81 @@ func genBindFacts(repo string) string {
 		}
 		appItems = bfItems(fn.Body.List)
 	})
+	// ---- app.Context.bindInternal: the arms of the switch on the content type; bindForm's own test of the header
+	type ctArm struct {
+		lits  []string
+		calls []string
+	}
+	var ctArms []ctArm
+	var ctDefault []string
+	var formPrefixes []string
+	g.guard("app.Context.bindInternal content types", func() {
+		fn := bfFn(app, "Context", "bindInternal")
+		var sw *ast.SwitchStmt
+		ast.Inspect(fn.Body, func(x ast.Node) bool {
+			if s, ok := x.(*ast.SwitchStmt); ok && s.Tag != nil {
+				if _, isIdent := s.Tag.(*ast.Ident); isIdent {
+					if sw != nil {
+						bfFail(s, "two switches on a local")
+					}
+					sw = s
+				}
+			}
+			return true
+		})
+		if sw == nil {
+			bfFail(fn, "no switch on the content type")
+		}
+		for _, c := range sw.Body.List {
+			cc := c.(*ast.CaseClause)
+			var calls []string
+			for _, st := range cc.Body {
+				calls = append(calls, bfCalls(st)...)
+			}
+			if cc.List == nil {
+				ctDefault = calls
+				continue
+			}
+			var lits []string
+			for _, e := range cc.List {
+				lit, ok := e.(*ast.BasicLit)
+				if !ok || lit.Kind != token.STRING {
+					bfFail(e, "a case of the content-type switch is not a string literal: %s", src(e))
+				}
+				v, err := strconv.Unquote(lit.Value)
+				if err != nil {
+					bfFail(lit, "%v", err)
+				}
+				lits = append(lits, v)
+			}
+			ctArms = append(ctArms, ctArm{lits, calls})
+		}
+		bf := bfFn(app, "Context", "bindForm")
+		ast.Inspect(bf.Body, func(x ast.Node) bool {
+			c, ok := x.(*ast.CallExpr)
+			if !ok || bfCalleeName(c) != "HasPrefix" || len(c.Args) != 2 {
+				return true
+			}
+			lit, ok := c.Args[1].(*ast.BasicLit)
+			if !ok || lit.Kind != token.STRING {
+				bfFail(c, "HasPrefix with a prefix that is not a string literal")
+			}
+			v, _ := strconv.Unquote(lit.Value)
+			formPrefixes = append(formPrefixes, v)
+			return true
+		})
+	})
+	g.b.WriteString("/-- `app.Context.bindInternal`: the arms of the switch on the (trimmed, lowered) content type - the literals and the calls of the arm -/\ndef app_contentTypeArms : List (List String × List String) := [")
+	for i, a := range ctArms {
+		if i > 0 {
+			g.b.WriteString(",")
+		}
+		fmt.Fprintf(&g.b, "\n  (%s, %s)", bfStrs(a.lits), bfStrs(a.calls))
+	}
+	g.b.WriteString("]\n\n")
+	fmt.Fprintf(&g.b, "/-- … the calls of its default arm -/\ndef app_contentTypeDefault : List String := %s\n\n", bfStrs(ctDefault))
+	fmt.Fprintf(&g.b, "/-- `app.Context.bindForm`: the prefixes it tests the raw Content-Type header for -/\ndef app_bindForm_prefixes : List String := %s\n\n", bfStrs(formPrefixes))
+
 	fmt.Fprintf(&g.b, "/-- `app.Context.bindInternal`: the options of its `binding.BindTo` call, in order -/\ndef app_bindInternal_sources : List String := %s\n\n", bfStrs(appSources))
 	g.items("app_bindInternal_items", "`app.Context.bindInternal`: its top-level statements", appItems)
 
